@@ -182,6 +182,16 @@ pub fn inexact_ratio_class(l: &[GTx], ticker: &str) -> bool {
     })
 }
 
+/// the implementation refuses for want of shares what the exact model accepts, on a ledger with a split
+/// ratio that does not divide exactly: decimal residue (defect D3, listed under C05); not a difference
+/// between model and code that another property's correspondence should raise
+pub fn d3_disagreement(l: &[GTx], imp: &crate::rep::Out<crate::rep::RRep>, model: &crate::rep::Out<crate::rep::RRep>) -> bool {
+    match (imp, model) {
+        (Err(e), Ok(_)) if matches!(e.kind.as_str(), "exceedsHolding" | "reservationExceedsBuy" | "unmatched") => inexact_ratio_class(l, e.detail.split(' ').next().unwrap_or("")),
+        _ => false,
+    }
+}
+
 pub fn has_kind(l: &[GTx], k: Kind) -> bool {
     l.iter().any(|t| t.kind == k)
 }
